@@ -140,7 +140,7 @@ namespace adept {
 	  grow_statement_stack(n);
 	}
 #endif
-	for (uIndex i = first; i < last_plus_1; i += stride) {
+	for (uIndex i = first; i != last_plus_1; i += stride) {
 	  statement_[n_statements_].index = i;
 	  statement_[n_statements_++].end_plus_one = n_operations_;
 	}
